@@ -84,6 +84,20 @@ class _LazyMemo(object):
         return f"<_LazyMemo {self.obj}>"
 
 
+class _LazyTupleEnd(object):
+    """
+    Marker in the lazy-writes queue: every element of this tuple has been
+    queued (and, by the time the marker is reached, written); now decide how
+    to close the tuple.
+    """
+
+    def __init__(self, obj):
+        self.obj = obj
+
+    def __repr__(self):
+        return f"<_LazyTupleEnd {self.obj}>"
+
+
 class _NonrecursivePickler(dill.Pickler):
     """
     Non-recursive pickler class.
@@ -141,6 +155,56 @@ class _NonrecursivePickler(dill.Pickler):
     memoize = lazymemoize
     realmemoize = dill.Pickler.memoize
 
+    def save_tuple(self, obj):
+        """
+        Save a tuple.
+
+        The stock pickler decides *after* saving a tuple's elements whether
+        the tuple is recursive (whether saving the elements has saved, and
+        memoized, the tuple itself -- possible through a mutable element such
+        as a list that contains the tuple).  Here the elements are only queued,
+        so that decision is queued behind them; see :py:meth:`_finish_tuple`.
+        """
+        if not obj:
+            if self.bin:
+                self.write(pickle.EMPTY_TUPLE)
+            else:
+                self.write(pickle.MARK + pickle.TUPLE)
+            return
+
+        if not (len(obj) <= 3 and self.proto >= 2):
+            self.write(pickle.MARK)
+        for element in obj:
+            self.save(element)
+        self.lazywrites.append(_LazyTupleEnd(obj))
+
+    def _finish_tuple(self, obj):
+        """
+        Close a tuple whose elements have all been written (the tail of the
+        stock ``save_tuple``).
+        """
+        n = len(obj)
+        short = n <= 3 and self.proto >= 2
+        if id(obj) in self.memo:
+            # the tuple is recursive and has been built already while its
+            # elements were saved: throw away what we put on the stack and
+            # fetch it
+            get = self.get(self.memo[id(obj)][0])
+            if short:
+                self.write(pickle.POP * n + get)
+            elif self.bin:
+                self.write(pickle.POP_MARK + get)
+            else:
+                self.write(pickle.POP * (n + 1) + get)
+        else:
+            # pylint: disable-next=protected-access
+            self.write(pickle._tuplesize2code[n] if short else pickle.TUPLE)
+            self.memoize(obj)
+
+    # same mapping type as dill's (it resolves metaclasses on a miss), with our tuple handler
+    dispatch = type(dill.Pickler.dispatch)(dill.Pickler.dispatch)
+    dispatch[tuple] = save_tuple
+
     def dump(self, obj):
         """Write a pickled representation of obj to the open file."""
         if self.proto >= 2:
@@ -158,6 +222,8 @@ class _NonrecursivePickler(dill.Pickler):
                         break
                 elif isinstance(lw, _LazyMemo):
                     self.realmemoize(lw.obj)
+                elif isinstance(lw, _LazyTupleEnd):
+                    self._finish_tuple(lw.obj)
                 else:
                     self.realwrite(*lw)
         self.realwrite(pickle.STOP)
